@@ -16,6 +16,22 @@
     ReadTimeout (`proxy.go`).  While the round trip to the origin is in progress nothing reads the client
     socket, so whatever read deadline is armed cannot fire; `WriteTimeout` covers only the writing of the
     response.  Hence: no limit applies while the proxy waits for the origin.
+  * `writeResponse`: `SetWriteDeadline(now + WriteTimeout)` is its FIRST statement (the instant `writeStart`:
+    the origin's response head — or the dialled CONNECT target, or the proxy's own error response — is at
+    hand) and the deadline is lifted (`SetWriteDeadline(zero)`) when it returns.  It is ONE absolute instant
+    for the whole response: neither bytes the client reads nor bytes the origin delivers extend it, so a
+    response that has not been relayed completely `WriteTimeout` after `writeStart` — because the client
+    does not read it, or because the origin's BODY is slower than that — is abandoned and the connection
+    closed.  Nothing arms a write deadline anywhere else: not `readRequest` (net/http's discipline, under
+    which the clock would run during the round trip), not the dial of a CONNECT target.
+  * `tunnel` (a CONNECT answered 2xx by the target side, a `101 Switching Protocols`): the response head is
+    written by `writeResponse` (write deadline armed and lifted as for every response), then
+    `SetReadDeadline(zero)` clears whatever `readRequest` left armed for the request that opened the tunnel
+    (the whole-request deadline `t0 + ReadTimeout`), then `bicopy` relays both ways until a peer ends the
+    tunnel.  No deadline of any kind is armed on a tunnel: the request limits do not apply to tunnelled
+    traffic.  (Before the repair of F46 the read deadline was not cleared: every tunnel was cut
+    `ReadTimeout` after the first byte of the request that opened it — at once when the dial had taken
+    longer than that.)
   * `maybeHandshakeTLS` (listener TLS, inside the per-connection goroutine): `HandshakeContext` under
     `TLSHandshakeTimeout`, counted from the start of `handleLoop`.
   * `handleMITM`: after the `200` to CONNECT the idle deadline is armed anew (`now + idleTimeout()`, as in
@@ -49,6 +65,7 @@ structure Limits where
   read       : Nat   -- HTTPServerConfig.ReadTimeout
   tls        : Nat   -- TLSServerConfig.HandshakeTimeout (listener handshake and MITM handshake)
   proxyHdr   : Nat   -- ProxyProtocolConfig.ReadHeaderTimeout
+  write      : Nat   -- HTTPServerConfig.WriteTimeout
 deriving DecidableEq, Repr
 
 /-- listener stacking (net.go `Listener.Listen/Accept`: tcp → PROXY protocol → conntrack → TLS) -/
@@ -60,6 +77,8 @@ deriving DecidableEq, Repr
 
 inductive Phase
   | proxyHeader | tlsHandshake | idle | header | body | mitmPeek | mitmHandshake | waitingForOrigin
+  | writing   -- `writeResponse` is relaying the response: from `writeStart` until the last byte is flushed
+  | tunnel    -- `bicopy`: CONNECT / upgrade tunnel, until a peer ends it
 deriving DecidableEq, Repr
 
 /-- martian `idleTimeout()` -/
@@ -78,6 +97,8 @@ def limitOf (L : Limits) : Phase → Nat
   | .mitmPeek => idleLimit L
   | .mitmHandshake => L.tls
   | .waitingForOrigin => 0
+  | .writing => L.write
+  | .tunnel => 0
 
 /-- `now.Add(d)` when `d > 0`, the zero time (no deadline) otherwise -/
 def dl (d s : Nat) : Option Nat := if d > 0 then some (s + d) else none
@@ -110,6 +131,9 @@ inductive Ev
   | complete            -- the unit is complete: PROXY header / handshake / request body / the response
                         -- of the origin has been relayed
   | head (k : ReqKind)  -- the request head is complete
+  | respStart           -- the origin's response head (the dialled tunnel, an error response) is at hand:
+                        -- `writeResponse` is entered — the instant `writeStart`
+  | tunnelUp            -- the 2xx to CONNECT / the 101 has been written: `bicopy` begins
 deriving DecidableEq, Repr
 
 /-- after `http.ReadRequest` returned at `t`: the deadline becomes `wholeReqDeadline` (anchored at the first
@@ -132,6 +156,10 @@ def next (S : Stacking) (L : Limits) (c : Conn) (t : Nat) (e : Ev) : Conn :=
   | .mitmPeek, .data => enter L .mitmHandshake t
   | .mitmHandshake, .complete => enter L .idle t
   | .waitingForOrigin, .complete => enter L .idle t
+  | .waitingForOrigin, .respStart => enter L .writing t
+  | .writing, .complete => enter L .idle t
+  | .waitingForOrigin, .tunnelUp => enter L .tunnel t
+  | .writing, .tunnelUp => enter L .tunnel t
   | _, _ => c
 
 inductive Outcome
@@ -157,6 +185,77 @@ def run (S : Stacking) (L : Limits) : Conn → List (Nat × Ev) → Outcome
     request head or body.  In `idle` and `mitmPeek` the very first byte is progress. -/
 def noProgress (p : Phase) (e : Ev) : Bool :=
   e == .data && p != .idle && p != .mitmPeek
+
+/-! ## The deadline set of the client socket -/
+
+/-- the timers that can close a client connection -/
+inductive Timer
+  | read        -- `SetReadDeadline`: idle wait, request head, whole request, first tunnel byte; PROXY header
+  | handshake   -- the context of the listener's or the MITM handshake
+  | write       -- `SetWriteDeadline`
+deriving DecidableEq, Repr
+
+/-- the operation the proxy has pending on the client socket in a phase, named by the timer that bounds
+    it; `none` = the proxy does nothing with the client socket (it waits for the origin).  A deadline
+    can only close the connection while an operation of its kind is pending. -/
+def timerOf : Phase → Option Timer
+  | .proxyHeader | .idle | .header | .body | .mitmPeek => some .read
+  | .tlsHandshake | .mitmHandshake => some .handshake
+  | .writing => some .write
+  | .waitingForOrigin | .tunnel => none
+
+/-- the instant at which timer `k` closes the connection in state `c` (`none` = that timer cannot) -/
+def armed (c : Conn) (k : Timer) : Option Nat :=
+  if timerOf c.phase = some k then c.deadline else none
+
+/-- NOT the code any more (F46, repaired): the state in which `tunnel` began before the read deadline was
+    cleared — the whole-request deadline of the request that opened the tunnel (anchored at its first
+    byte, the anchor of `waitingForOrigin`) stays armed while `bicopy` reads the client socket -/
+def tunnelInherited (L : Limits) (c : Conn) : Conn := ⟨.tunnel, c.anchor, dl L.read c.anchor⟩
+
+/-! ## A variant that is NOT the code: the write deadline armed when the request has been read
+
+`SetWriteDeadline(now + WriteTimeout)` at the end of `readRequest` (net/http arms its write deadline
+there: "reset whenever a new request's header is read") and lifted only after `writeResponse`.  The clock
+then runs during the round trip to the origin / the dial of the CONNECT target; `writeResponse` writes under
+whatever is left of it, and when nothing is left the first write fails and the connection is closed at the
+very instant the origin answers.  `Theorems/C15.lean` refutes this variant by a kernel-checked witness. -/
+
+/-- state of the variant: the connection as before and the write deadline armed on its socket -/
+structure VConn where
+  conn : Conn
+  wd   : Option Nat
+deriving DecidableEq, Repr
+
+def nextV (S : Stacking) (L : Limits) (v : VConn) (t : Nat) (e : Ev) : VConn :=
+  let c' := next S L v.conn t e
+  match v.conn.phase, e with
+  | .idle, .head .connectMitm | .header, .head .connectMitm => ⟨c', none⟩   -- the 200 is written at once
+  | .idle, .head _ | .header, .head _ => ⟨c', dl L.write t⟩                 -- end of `readRequest`
+  | .waitingForOrigin, .respStart => ⟨{ c' with deadline := v.wd }, v.wd⟩   -- not armed anew
+  | .waitingForOrigin, .complete | .writing, .complete => ⟨c', none⟩        -- lifted after `writeResponse`
+  | _, _ => ⟨c', v.wd⟩
+
+/-- the proxy starts writing to the client at `t` although the write deadline has expired -/
+def writesTooLate (v : VConn) (t : Nat) (e : Ev) : Bool :=
+  v.conn.phase == .waitingForOrigin && (e == .respStart || e == .complete) &&
+    (match v.wd with | some d => decide (d ≤ t) | none => false)
+
+/-- `run` for the variant: as `run`, and a response that is at hand after the write deadline expired
+    closes the connection at that instant (the flush fails, nothing reaches the client) -/
+def runV (S : Stacking) (L : Limits) : VConn → List (Nat × Ev) → Outcome
+  | v, [] =>
+    match v.conn.deadline with
+    | some d => .closed d v.conn.phase v.conn.anchor
+    | none => .stays v.conn
+  | v, (t, e) :: rest =>
+    let u := max t v.conn.anchor
+    match v.conn.deadline with
+    | some d => if d ≤ u then .closed d v.conn.phase v.conn.anchor
+                else if writesTooLate v u e then .closed u v.conn.phase v.conn.anchor
+                else runV S L (nextV S L v u e) rest
+    | none => if writesTooLate v u e then .closed u v.conn.phase v.conn.anchor
+              else runV S L (nextV S L v u e) rest
 
 /-! ## The accept loop -/
 
